@@ -363,6 +363,9 @@ func BlankDefaultItemTypes(a any) int {
 // non-empty plain strings that are not ids or references -- gives it another value, calls f with
 // the path of the field, and restores it.  Fields that are not serialised (`xml:"-"`) are left
 // alone.  It returns the number of fields visited.
+// PerturbEmptyStrings: plain text attributes that are empty are given a value as well.
+var PerturbEmptyStrings bool
+
 func PerturbScalars(a any, strings_ bool, f func(path string)) int {
 	n := 0
 	seen := map[uintptr]bool{}
@@ -419,7 +422,7 @@ func PerturbScalars(a any, strings_ bool, f func(path string)) int {
 				v.SetFloat(old)
 			}
 		case reflect.String:
-			if strings_ && v.CanSet() && v.Type().Kind() == reflect.String && v.Type().PkgPath() == "" && strings.TrimSpace(v.String()) != "" {
+			if strings_ && v.CanSet() && v.Type().Kind() == reflect.String && v.Type().PkgPath() == "" && (PerturbEmptyStrings || strings.TrimSpace(v.String()) != "") {
 				low := strings.ToLower(path[strings.LastIndex(path, ".")+1:])
 				if strings.Contains(low, "ref") || strings.HasSuffix(low, "id") || strings.Contains(low, "type") || strings.Contains(low, "language") || strings.Contains(low, "namespace") || strings.Contains(low, "xmlns") {
 					return
